@@ -65,4 +65,9 @@ PROPS = {
                                           {"name": "tm", "test": "TestStreamTm", "cases": 6, "ops": 40, "thorough_scale": 15}],
             "assumptions": COMMON_ASSUME,
             "explanation": "`tm_status_iff`, `eth_status_iff` (+ sub-second independence), `packets_require_active`, `update_requires_active`; correspondence: Status of real TM / BSC / ETH client states at period-1, period, period+1 with every sub-second part; MsgRecvPacket / MsgAcknowledgement against really expired clients on two real chains."},
+    "C08": {"level": "proof", "lean_modules": ["Tibc.Props.C08"],
+            "streams": [{"name": "proofs", "test": "TestStreamProofs", "cases": 6, "ops": 30, "thorough_scale": 20}],
+            "assumptions": ["ICS-23 / IAVL and go-ethereum trie + RLP are abstract: a proof is described by what it genuinely proves; binding (no proof of a value that is not stored) and completeness (the honest proof verifies) of those libraries are hypotheses of the theorems, exercised by the stream against the real libraries with honest, other-key, other-root, truncated, re-ordered and absence proofs",
+                            "keccak-256 abstract (slot derivation is injective modulo collisions)"],
+            "explanation": "`tm_verify_iff`, `eth_verify_iff`, `bsc_verify_iff` + soundness / completeness corollaries over all contexts; correspondence: Verify* of real TM / ETH / BSC client states over real IAVL stores and real Merkle-Patricia account+storage tries, compared with the model's glue and with the independent oracle `stored under the protocol key in the recorded state, height and delay conditions met`."},
 }
